@@ -313,6 +313,11 @@ def lines_proc(cmd, inputs, env=None, timeout=600, cwd=None):
     """Feeds one JSON per line, returns list of parsed outputs (None where missing/garbled)
     plus (returncode, stderr_tail)."""
     data = "".join(json.dumps(i) + "\n" for i in inputs)
+    if cwd is None:
+        # never run the code under test with /verif (or whatever the caller's directory is) as its
+        # working directory: generated configurations may hold relative paths
+        cwd = os.path.join(BUILD, "scratch", "cwd")
+        os.makedirs(cwd, exist_ok=True)
     p = subprocess.run(cmd, input=data, stdout=subprocess.PIPE, stderr=subprocess.PIPE, text=True,
                        env=env, timeout=timeout, cwd=cwd)
     outs = []
